@@ -173,6 +173,15 @@ def check_permutation(ctx):
     m = ctx.model
     q = MON + ".Diagram.permutation"
     fn = m.func(q)
+    pv = fn.args.args[0].arg
+    mut = [ast.unparse(c)[:50] for c in ast.walk(fn) if isinstance(c, ast.Call) and isinstance(c.func, ast.Attribute) and isinstance(c.func.value, ast.Name) and c.func.value.id == pv
+           and c.func.attr in ("insert", "pop", "append", "remove", "sort", "reverse", "extend", "clear")] + \
+        [ast.unparse(st)[:50] for st in ast.walk(fn) if isinstance(st, (ast.Assign, ast.AugAssign)) and isinstance((st.targets[0] if isinstance(st, ast.Assign) else st.target), ast.Subscript)
+         and ast.unparse((st.targets[0] if isinstance(st, ast.Assign) else st.target).value) == pv]
+    ctx.ob("R10.3", q + ":argument-untouched", not mut, found=mut or "`%s` is only re-bound to new lists" % pv, required="the caller's list is not changed in place (the diagram returned must correspond to the list the caller still holds)",
+           mod=MON, node=fn, sig="perm-mutated", trivial=True)
+    if mut:
+        return
     ctx.analysed(q, MON + ".Diagram.permute")
     params = [a.arg for a in fn.args.args]
     perm_, dom_ = params[0], params[1]
@@ -280,9 +289,19 @@ def check_factories(ctx):
                     x = st.targets[0].id
                     used = {n.id for n in ast.walk(st.value) if isinstance(n, ast.Name) and n.id in a}
                     if meth == "permutation" and x == a[1]:
-                        continue        # default domain, checked below
+                        # default domain: only a MISSING domain (None) is replaced; an explicitly given empty domain is falsy and must reach the length check
+                        v = st.value
+                        okd = isinstance(v, ast.IfExp) and shape.key(v.test) in (shape.key(shape.parse("%s is None" % x)), shape.key(shape.parse("%s is not None" % x)))
+                        ctx.ob("R10.4", "%s.%s:default-domain" % (k.q, meth), okd, found=ast.unparse(st), required="`%s` is replaced by the default only when it is None (not when it is empty)" % x,
+                               mod=k.mod, node=st, sig="default-dom")
+                        continue
                     ctx.ob("R10.4", "%s.%s:rebinds-%s" % (k.q, meth, x), used <= {x}, found=ast.unparse(st), required="%s re-bound only to an upgrade of itself" % x,
                            mod=k.mod, node=st, sig="rebind-" + x)
+            if meth == "permutation" and len(a) > 1:
+                for st in fn.body:
+                    if isinstance(st, ast.If) and any(isinstance(b, ast.Assign) and ast.unparse(b.targets[0]) == a[1] for b in st.body):
+                        ctx.ob("R10.4", "%s.%s:default-domain" % (k.q, meth), shape.key(st.test) == shape.key(shape.parse("%s is None" % a[1])), found=ast.unparse(st.test),
+                               required="`%s` is replaced by the default only when it is None (not when it is empty)" % a[1], mod=k.mod, node=st, sig="default-dom")
             n += 1
     return n
 
